@@ -500,6 +500,12 @@ func (p *Proxy) findBackendByDialog(msg *Message) (Backend, ServerTransport, err
 	}
 
 	backend, err := p.dialogBasedBackends.GetBackend(dialog)
+	if err == nil && !p.isRegisteredBackend(backend) {
+		// the backend that answered the dialog has left the set (its socket is closed):
+		// forget the binding, the request is load-balanced like one of an unknown dialog
+		p.dialogBasedBackends.RemoveDialog(dialog)
+		return nil, nil, fmt.Errorf("the backend of dialog %s is not registered any more", dialog)
+	}
 	var transport ServerTransport = nil
 	if err == nil {
 		zap.L().Info("find backend by dialog", zap.String("backendAddr", backend.GetAddress()), zap.String("dialog", dialog))
@@ -517,6 +523,16 @@ func (p *Proxy) findBackendByDialog(msg *Message) (Backend, ServerTransport, err
 		}
 	}
 	return backend, transport, err
+}
+
+// isRegisteredBackend tells if a backend a dialog is bound to can still be used: the
+// round-robin set itself, or a member that has not been removed since
+func (p *Proxy) isRegisteredBackend(backend Backend) bool {
+	if _, ok := backend.(*RoundRobinBackend); ok {
+		return true
+	}
+	backendWithParent, ok := p.backends[backend.GetAddress()]
+	return ok && backendWithParent.backend == backend
 }
 
 func (p *Proxy) findTransportByBackendAddr(addr string) (ServerTransport, error) {
